@@ -1,6 +1,8 @@
 package task_store
 
 import (
+	"errors"
+
 	"github.com/influxdata/kapacitor/services/storage"
 	vrt "github.com/influxdata/kapacitor/zz_vrt"
 )
@@ -58,9 +60,18 @@ func VerifC14TemplateAssoc(v *vrt.T) {
 	v.Reach("end")
 }
 
-// Engine-side replacements of the gob encoding of the template body (reflection driven);
-// the associations do not depend on it. The native replays run the real ones.
-func verifC14EncodeTemplate(d *templateKV, t Template) ([]byte, error) { return []byte(t.ID), nil }
+// Engine-side replacements of the gob encoding of the template body (reflection driven):
+// the template is remembered in a side table and a one-byte reference is stored. The
+// native replays run the real encoding.
+var verifC14Templates []Template
+
+func verifC14EncodeTemplate(d *templateKV, t Template) ([]byte, error) {
+	verifC14Templates = append(verifC14Templates, t)
+	return []byte{byte(len(verifC14Templates) - 1)}, nil
+}
 func verifC14DecodeTemplate(d *templateKV, data []byte) (Template, error) {
-	return Template{ID: string(data)}, nil
+	if len(data) != 1 || int(data[0]) >= len(verifC14Templates) {
+		return Template{}, errors.New("verif: unknown template encoding")
+	}
+	return verifC14Templates[int(data[0])], nil
 }
